@@ -37,6 +37,16 @@ CLAIMS = {
   "for all bases of small shapes and random larger ones, read-back through the real reader, and write-own-basis / continue sequences.",
   COMMON_NOTE + "Names assumed distinct and free of white space; the MPS line tokenizer under the reader is not modelled.",
   "DESIGN.md C14", "Lean 4 proof of the basis-file codec round trip + model/implementation correspondence check"),
+ "C05": ("proof",
+  "Lean session state machine (basis / cached solution / factorok / status per public entry point, solver results and the flags of "
+  "ILLlib_delrows as oracle answers) with the invariant, proved for ALL histories by induction, that a stored solution is either computed for the "
+  "problem exactly as it stands or survived only 'basis ok, cache ok' row deletions, that every other successful edit drops it, and that accessors "
+  "fail without it; tied to /repo by comparing the session fields after every step of generated and bounded-exhaustive edit/solve histories, and by "
+  "the oracle: every re-solve is compared with a fresh copy of the current problem solved from scratch and every OPTIMAL / every accessor value "
+  "between edit and solve goes through the proved checker certOK against the problem as it stands. Partial: the correctness of warm-started "
+  "pivoting itself (LU reuse, retained norms) is explored through its results, not proved.",
+  COMMON_NOTE + "The fresh copy is built from the library's own query dump (C06). Only well-formed edits (lower <= upper) are generated.",
+  "DESIGN.md C05", "Lean 4 invariant proof over the session state machine + correspondence check with certificate oracle"),
  "C06": ("proof",
   "Reference model Spec of the editing API in Lean (24 call kinds incl. list/set/named variants, generated-name rule) with its guard and atomicity "
   "theorems; the real library is compared with Spec after EVERY operation of generated histories through the whole query API (counts, nzcount, "
